@@ -186,6 +186,22 @@ def nasty_prefix(kind, spec, rng):
                     fn()
                 except Exception:  # pylint: disable=broad-except
                     pass
+        elif kind == "same_constraint_names_as_operands":
+            # an earlier problem uses constraints with the SAME explicit names inside connectives
+            ps.SchedulingProblem(name="earlier", horizon=6)
+            x = ps.FixedDurationTask(name="x", duration=1)
+            y = ps.FixedDurationTask(name="y", duration=2)
+            names = [c.get("name") for c in spec.get("constraints", []) if c.get("name")] or ["c0"]
+            ops = []
+            for i, nm in enumerate(names):
+                ops.append(ps.TaskStartAt(name=nm, task=x if i % 2 else y, value=i % 3))
+            try:
+                ps.Not(constraint=ops[0])
+                if len(ops) > 1:
+                    ps.Or(list_of_constraints=ops[1:])
+                ps.SchedulingSolver(problem=processscheduler_base().active_problem, max_time=5).solve()
+            except Exception:  # pylint: disable=broad-except
+                pass
         elif kind == "multi_objective_solved":
             s2 = fam.base(5, [fam.fx("t0", 2), fam.fx("t1", 1)], indicators=[
                 {"id": "i", "kind": "FromExpr", "name": "s0", "expr": ["start", "t0"]},
@@ -200,7 +216,12 @@ def nasty_prefix(kind, spec, rng):
                 pass
 
 
-PREFIX_KINDS = ["same_names_solved", "other_names_many", "half_built", "failed_constructors", "multi_objective_solved"]
+def processscheduler_base():
+    import processscheduler.base as pb
+    return pb
+
+
+PREFIX_KINDS = ["same_constraint_names_as_operands", "same_names_solved", "other_names_many", "half_built", "failed_constructors", "multi_objective_solved"]
 
 
 def fresh_signature(spec, cands):
@@ -270,6 +291,9 @@ def base_specs(n, seed, tier):
                 for t in spec["tasks"]:
                     if t["name"] in (names[0], names[-1]):
                         t.pop("optional", None)
+        # constraints carry explicit names (a user may name them; names are unique per problem only)
+        for c in spec["constraints"]:
+            c["name"] = c["id"]
         out.append(spec)
     # hand-made: order-sensitive suspects
     out.append(fam.base(4, [fam.fx("x", 1, optional=True), fam.fx("y", 1, optional=True), fam.fx("z", 1)], constraints=[
